@@ -34,7 +34,7 @@ FLOOR = {"cc:fold>1:TorchEvidenceLayer": 1, "obs:partial": 1, "obs:complete": 1,
 
 
 def plan(tier, seed):
-    n = 14 if tier == "quick" else 1280
+    n = 28 if tier == "quick" else 1280
     cases = []
     for k in range(n):
         for kind in ("evi-homog", "evi-homog", "evi-mixed", "evi-then", "concat"):
